@@ -12,6 +12,19 @@ from .signals import Raised, Returned, Abandon, BreakSig, ContinueSig, ConsumerS
 
 class ExprMixin:
 
+    def xor_atoms(self, lin):
+        """Operands of the XOR chain that produced the integer `lin` (itself, when it is not a XOR)."""
+        lin = self.store.canon(Lin.of(lin))
+        syms = lin.syms()
+        if len(syms) == 1 and lin == Lin.sym(syms[0]):
+            o = self.origin.get(syms[0])
+            if isinstance(o, tuple) and o and o[0] == 'xor':
+                return o[1]
+        if lin.is_const() and lin.c == 0:
+            return frozenset()
+        return frozenset([lin])
+
+
     def eval(self, node):
         m = getattr(self, 'ex_' + type(node).__name__, None)
         if m is None:
@@ -33,6 +46,9 @@ class ExprMixin:
             if name in fr.locals:
                 return fr.locals[name]
             fr = getattr(fr, 'closure', None)
+        cs = getattr(self.frames[-1], 'class_scope', None)
+        if cs is not None and name in cs.attrs:
+            return self.class_attr(cs, name, cs.attrs[name])
         return self.global_name(self.frames[-1].module, name, node)
 
     def global_name(self, mod, name, node=None):
@@ -66,9 +82,10 @@ class ExprMixin:
             return v
         return UnkV(f'binding {kind}')
 
-    def eval_in_module(self, mod, expr):
+    def eval_in_module(self, mod, expr, class_scope=None):
         from .interp import Frame
         fr = Frame(None, mod)
+        fr.class_scope = class_scope     # names of the class body are visible to its own attribute expressions
         self.frames.append(fr)
         try:
             return self.eval(expr)
@@ -554,12 +571,22 @@ class ExprMixin:
                     f = {ast.BitXor: operator.xor, ast.BitAnd: operator.and_, ast.BitOr: operator.or_,
                          ast.LShift: operator.lshift, ast.RShift: operator.rshift}[type(op)]
                     return IntV(f(ca.c, cb.c), tags)
+                if isinstance(op, (ast.BitXor, ast.BitOr)):
+                    # 0 is the identity of ^ and |
+                    if ca.is_const() and ca.c == 0:
+                        return IntV(cb, tags)
+                    if cb.is_const() and cb.c == 0:
+                        return IntV(ca, tags)
                 v = self._opaque_int(type(op).__name__, node, tags, nonneg=(self.store.prove_ge0(ca) and self.store.prove_ge0(cb)))
                 if isinstance(op, ast.BitXor):
                     ha, hb = self.store.hi(ca), self.store.hi(cb)
                     if ha is not None and hb is not None and self.store.prove_ge0(ca) and self.store.prove_ge0(cb):
                         bits = max(ha.bit_length(), hb.bit_length())
                         self.store.declare(v.lin.syms()[0], 0, (1 << bits) - 1)
+                    # the operands of a chain of XORs, as a set: equal operands cancel
+                    self.origin[v.lin.syms()[0]] = ('xor', self.xor_atoms(ca) ^ self.xor_atoms(cb))
+                else:
+                    self.origin[v.lin.syms()[0]] = ('bitop', type(op).__name__, ca, cb)
                 v.origin = (type(op).__name__, a, b)
                 return v
             if isinstance(op, ast.Div):
@@ -769,7 +796,7 @@ class ExprMixin:
         key = ('classattr', owner.qualname, name)
         if key in self.modcache:
             return self.modcache[key]
-        v = self.eval_in_module(owner.module, expr)
+        v = self.eval_in_module(owner.module, expr, class_scope=owner)
         if isinstance(v, (ListV, DictV, ObjV, FileV)):
             v.tags = frozenset(v.tags) | {'global'}
             if isinstance(v, (ListV, DictV)):
@@ -976,7 +1003,50 @@ class ExprMixin:
     def ex_DictComp(self, node):
         return self._comprehension(node, ast.Tuple(elts=[node.key, node.value], ctx=ast.Load()), 'dict')
 
+    def _const_range(self, e):
+        """range(...) call with a constant step other than 1 (evaluated to a small list when its bounds are constants)"""
+        return isinstance(e, ast.Call) and isinstance(e.func, ast.Name) and e.func.id == 'range' and len(e.args) == 3 and \
+            not e.keywords
+
+    def _comprehension_exact(self, node, elt, kind, items):
+        """comprehension over a small concrete collection: one exact evaluation per item (like st_For)"""
+        fr = self.frames[-1]
+        gen = node.generators[0]
+        saved = dict(fr.locals)
+        out = []
+        try:
+            for x in items:
+                self.assign(gen.target, x, node)
+                if all(self.truth(self.eval(c)) for c in gen.ifs):
+                    out.append(self.eval(elt))
+        finally:
+            names = {n.id for n in ast.walk(gen.target) if isinstance(n, ast.Name)}
+            for n in names:
+                if n in saved:
+                    fr.locals[n] = saved[n]
+                else:
+                    fr.locals.pop(n, None)
+        self.event('comprehension', node, ckind=kind, elem=self.join_many(out) if out else None, sources=[],
+                   filtered=bool(gen.ifs), exact=True)
+        if kind == 'dict':
+            d = DictV(desc='dictcomp')
+            for kv in out:
+                k = self.py_key(kv.items[0])
+                if k is None:
+                    return None
+                d.items[k] = kv.items[1]
+            return d
+        return ListV(items=out)
+
     def _comprehension(self, node, elt, kind):
+        if len(node.generators) == 1 and not node.generators[0].is_async and not self.nofork:
+            src = self.resolve(self.eval(node.generators[0].iter)) if isinstance(
+                node.generators[0].iter, (ast.Name, ast.Attribute, ast.Tuple, ast.List)) or self._const_range(node.generators[0].iter) else None
+            if isinstance(src, (TupleV, ListV)) and src.items is not None and len(src.items) <= 8 and \
+                    not getattr(src, 'loop_open', False):
+                r = self._comprehension_exact(node, elt, kind, list(src.items))
+                if r is not None:
+                    return r
         fr = self.frames[-1]
         saved_locals = dict(fr.locals)
         saved_store = self.store.copy()
